@@ -85,11 +85,13 @@ TEXT = {
     },
     "C18": {
         "text": "Theorems: frame layout (0x45, total/UDP lengths, TTL, protocol 17, addresses, ports, payload unchanged); the IPv4 header checksum and the UDP checksum verify under RFC 1071/768 "
-                "for EVERY payload that fits an IP packet (ones-complement arithmetic with the 32-bit accumulator and two-step fold proved correct); a read iteration never panics; ReadFrom "
+                "for EVERY payload that fits an IP packet (ones-complement arithmetic with the 32-bit accumulator and two-step fold proved correct); a read iteration never panics and "
+                "delivers a frame IF AND ONLY IF the received octets have the RFC 791/768 layout of a UDP datagram for the bound address (C18_read_exact, frame_spec), then exactly its "
+                "payload and source; ReadFrom "
                 "skips exactly the skipped frames of any sequence and preserves order; written frames are read back unchanged. The real connection is compared with the model and with an "
                 "independent RFC validator/specification over all payload lengths 0..1500 and mixed frame sequences.",
-        "note": COMMON_NOTE + "The 'well-formed iff delivered' characterisation of a single frame is checked by the independent Go specification (direct oracle), not by a Coq iff.",
-        "technique": "Coq proof (RFC 1071 arithmetic, frame layout, read/write inversion) + differential correspondence + independent validator",
+        "note": COMMON_NOTE,
+        "technique": "Coq proof (RFC 1071 arithmetic, frame layout, delivered-iff-well-formed, read/write inversion) + differential correspondence + independent validator",
     },
     "C03": {
         "text": "Panics and non-termination are explicit results of the model (Panic, Fuel); theorems show every decoding entry point returns Ok or Err for ALL byte strings, re-encoding "
